@@ -180,8 +180,12 @@ func (g *G) passOn() {
 		c := vm.candidates(g)
 		if len(c) > 0 {
 			var next *G
-			if vm.cfg.Mode == "explore" && len(c) > 1 {
-				next = c[vm.choose(len(c), "sched-exit", 'S')]
+			if vm.cfg.Mode == "explore" && len(c) > 1 && vm.switches < vm.cfg.SwitchBound {
+				k := vm.choose(len(c), "sched-exit", 'S')
+				if k > 0 {
+					vm.switches++
+				}
+				next = c[k]
 			} else {
 				next = c[0]
 			}
@@ -252,8 +256,12 @@ func (g *G) block(desc string, ready func() bool) {
 			vm.deadlock()
 		}
 		var next *G
-		if vm.cfg.Mode == "explore" && len(c) > 1 {
-			next = c[vm.choose(len(c), "sched-block", 'S')]
+		if vm.cfg.Mode == "explore" && len(c) > 1 && vm.switches < vm.cfg.SwitchBound {
+			k := vm.choose(len(c), "sched-block", 'S')
+			if k > 0 {
+				vm.switches++
+			}
+			next = c[k]
 		} else {
 			next = c[0]
 		}
